@@ -574,9 +574,32 @@ func (e *Env) call(x *ECall) (Val, types.Type) {
 		}
 		return e.with(e.now).eval(x.Args[0])
 	case "atlock", "atunlock":
+		// atlock(e) / atunlock(e): state at the most recent Lock / Unlock of any modelled mutex;
+		// atlock(e, "mutexField") / atunlock(e, "mutexField"): of that mutex (lock item field name)
+		tag := x.Fun
+		if len(x.Args) == 2 {
+			s, ok := x.Args[1].(*EStr)
+			if !ok {
+				return e.fail("%s: the second argument must be a string literal naming the mutex field", x.Fun)
+			}
+			f := s.Val
+			if i := strings.Index(f, "."); i >= 0 && !strings.Contains(f[i+1:], ".") && f[:1] == strings.ToUpper(f[:1]) {
+				f = f[i+1:] // "Type.field" accepted: snapshots are keyed by the lock item's field
+			}
+			known := false
+			for _, l := range t.eng.contracts.Locks {
+				if l.Field == f {
+					known = true
+				}
+			}
+			if !known {
+				return e.fail("%s: no lock item for mutex field %q", x.Fun, f)
+			}
+			tag = x.Fun + "." + f
+		}
 		snap := &State{m: map[string]Term{}}
 		for name := range t.vars {
-			snap.m[name] = t.get(e.st, e.snapPrefix+x.Fun+":"+name)
+			snap.m[name] = t.get(e.st, e.snapPrefix+tag+":"+name)
 		}
 		se := e.with(snap)
 		if se.now == nil {
@@ -668,6 +691,55 @@ func (e *Env) call(x *ECall) (Val, types.Type) {
 			return Val{T: fmt.Sprintf("(select %s %s)", sv.T, xv)}, tBool
 		}
 		return Val{T: fmt.Sprintf("(store %s %s true)", sv.T, xv)}, sty
+	case "atloop":
+		// atloop(e): e evaluated in the state in which the loop this invariant belongs to was entered (before its
+		// first iteration); atloop(e, n): loop n of the function (must enclose or precede the point of evaluation)
+		if e.at == nil {
+			return e.fail("atloop() is only available in loop invariants")
+		}
+		var li *loopInfo
+		if len(x.Args) == 2 {
+			n, ok := x.Args[1].(*EInt)
+			if !ok {
+				return e.fail("atloop: the second argument must be a loop ordinal")
+			}
+			for _, l := range t.loops {
+				if fmt.Sprint(l.ordinal) == n.Val {
+					li = l
+				}
+			}
+		} else {
+			li = t.loops[e.at.Index]
+		}
+		if li == nil {
+			return e.fail("atloop(): no such loop (without an ordinal it is only available in the invariants of a loop)")
+		}
+		if !(li.header == e.at || li.header.Dominates(e.at)) {
+			return e.fail("atloop(): loop %d does not dominate this point", li.ordinal)
+		}
+		snap := &State{m: map[string]Term{}}
+		pre := fmt.Sprintf("atloop%d:", li.ordinal)
+		for name := range t.vars {
+			if _, ok := e.st.m[pre+name]; ok {
+				snap.m[name] = e.st.m[pre+name]
+			} else {
+				// on the entry edge the snapshot is the current state
+				snap.m[name] = t.get(e.st, name)
+			}
+		}
+		se := e.with(snap)
+		if se.now == nil {
+			se.now = e.st
+		}
+		return se.eval(x.Args[0])
+	case "drained":
+		// drained(ch): the most recent channel operation of this function on ch was a non-blocking select with a
+		// receive case on ch that took its default branch (the queue was seen empty and nothing was sent since)
+		v, ty := arg(0)
+		if _, ok := ty.Underlying().(*types.Chan); !ok {
+			return e.fail("drained() needs a channel")
+		}
+		return Val{T: fmt.Sprintf("(select %s %s)", t.get(e.st, t.chanDrainedVar(ty).Name), v.T)}, tBool
 	case "visited":
 		// visited(k): key k has already been yielded by the map `range` loop this invariant belongs to
 		// (the innermost map range whose Range instruction dominates the point of evaluation)
@@ -675,10 +747,30 @@ func (e *Env) call(x *ECall) (Val, types.Type) {
 			return e.fail("visited() is only available in loop invariants")
 		}
 		var best *ssa.Range
-		for rg := range t.rangeIters {
-			if rg.Block() == e.at || rg.Block().Dominates(e.at) {
-				if best == nil || best.Block().Dominates(rg.Block()) {
-					best = rg
+		if len(x.Args) == 2 {
+			// visited(k, n): the map range of loop n (an enclosing loop's iterator inside a nested loop)
+			n, ok := x.Args[1].(*EInt)
+			if !ok {
+				return e.fail("visited: the second argument must be a loop ordinal")
+			}
+			for rg := range t.rangeIters {
+				for _, ref := range *rg.Referrers() {
+					if nx, ok := ref.(*ssa.Next); ok {
+						if l := t.loops[nx.Block().Index]; l != nil && fmt.Sprint(l.ordinal) == n.Val && (rg.Block() == e.at || rg.Block().Dominates(e.at)) {
+							best = rg
+						}
+					}
+				}
+			}
+			if best == nil {
+				return e.fail("visited(): loop %s is not a map range loop in scope", n.Val)
+			}
+		} else {
+			for rg := range t.rangeIters {
+				if rg.Block() == e.at || rg.Block().Dominates(e.at) {
+					if best == nil || best.Block().Dominates(rg.Block()) {
+						best = rg
+					}
 				}
 			}
 		}
